@@ -48,18 +48,20 @@ VARIABLES blk,       \* DB: sequence of committed blocks [num, evs]; evs = seque
                      \*       afterwards while their insertion survived (finding F2b: Reorg cannot bring the row back)
           mem,       \* process memory: [lastIndex, cache, halted]
           nextLeaf,  \* environment: next fresh leaf atom
+          reuse,     \* environment: leaf index -> atom of a leaf dropped by a reorg; the new fork may carry it again at the same
+                     \*              index (the same transaction mined again), so re-stored tree nodes are partly duplicates
           nops,
           lastRes,   \* result of the last operation (observed by the driver)
           hist       \* operation history (behaviour export; hidden by VIEW)
 
-vars == <<blk, aroots, rht, uroots, urht, gers, lost, mem, nextLeaf, nops, lastRes, hist>>
-view == <<blk, aroots, rht, uroots, urht, gers, lost, mem, nextLeaf, nops, lastRes>>
+vars == <<blk, aroots, rht, uroots, urht, gers, lost, mem, nextLeaf, reuse, nops, lastRes, hist>>
+view == <<blk, aroots, rht, uroots, urht, gers, lost, mem, nextLeaf, reuse, nops, lastRes>>
 
 FreshMem == [lastIndex |-> -2, cache |-> [h \in 0..(H - 1) |-> Junk], halted |-> FALSE]
 
 Init ==
   /\ blk = <<>> /\ aroots = {} /\ rht = {} /\ uroots = {} /\ urht = {} /\ gers = {} /\ lost = {}
-  /\ mem = FreshMem /\ nextLeaf = 1 /\ nops = 0 /\ lastRes = "init" /\ hist = <<>>
+  /\ mem = FreshMem /\ nextLeaf = 1 /\ reuse = <<>> /\ nops = 0 /\ lastRes = "init" /\ hist = <<>>
 
 -----------------------------------------------------------------------------
 (* helpers over the DB *)
@@ -235,8 +237,8 @@ DepositCount == Len(LeavesOf(blk))
 (* event shapes; leaf atoms are assigned fresh, in order *)
 Shapes == IF Kind = "ger" THEN {<<"ger">>} \cup {<<"gerrm", x>> : x \in 1..MaxLeaves}
           ELSE IF Kind = "bridge"
-          THEN {<<"leaf">>, <<"other">>} \cup (IF AllowGap THEN {<<"gap">>} ELSE {})
-          ELSE {<<"leaf">>, <<"v2good">>, <<"v2bad">>} \cup {<<"verify", r, x>> : r \in Rollups, x \in ExitRoots}
+          THEN {<<"leaf">>, <<"leafR">>, <<"other">>} \cup (IF AllowGap THEN {<<"gap">>} ELSE {})
+          ELSE {<<"leaf">>, <<"leafR">>, <<"v2good">>, <<"v2bad">>} \cup {<<"verify", r, x>> : r \in Rollups, x \in ExitRoots}
 
 RECURSIVE Concrete(_, _, _)
 Concrete(shapes, nl, dc) ==   \* turn a sequence of shapes into events with fresh leaf atoms / deposit counts
@@ -245,13 +247,14 @@ Concrete(shapes, nl, dc) ==   \* turn a sequence of shapes into events with fres
        IF s = "ger" THEN <<[t |-> "ger", x |-> nl]>> \o Concrete(Tail(shapes), nl + 1, dc)
        ELSE IF s = "gerrm" THEN <<[t |-> "gerrm", x |-> Head(shapes)[2]]>> \o Concrete(Tail(shapes), nl, dc)
        ELSE IF s = "leaf" THEN <<[t |-> "leaf", x |-> nl, dc |-> dc]>> \o Concrete(Tail(shapes), nl + 1, dc + 1)
+       ELSE IF s = "leafR" THEN <<[t |-> "leaf", x |-> reuse[dc], dc |-> dc]>> \o Concrete(Tail(shapes), nl, dc + 1)
        ELSE IF s = "gap" THEN <<[t |-> "leaf", x |-> nl, dc |-> dc + 1]>> \o Concrete(Tail(shapes), nl + 1, dc + 2)
        ELSE IF s = "other" THEN <<[t |-> "other"]>> \o Concrete(Tail(shapes), nl, dc)
        ELSE IF s = "v2good" THEN <<[t |-> "v2", good |-> TRUE]>> \o Concrete(Tail(shapes), nl, dc)
        ELSE IF s = "v2bad" THEN <<[t |-> "v2", good |-> FALSE]>> \o Concrete(Tail(shapes), nl, dc)
        ELSE <<[t |-> "verify", r |-> Head(shapes)[2], x |-> Head(shapes)[3]]>> \o Concrete(Tail(shapes), nl, dc)
 
-NLeaves(shapes) == Cardinality({i \in DOMAIN shapes : shapes[i][1] \in {"leaf", "gap", "ger"}})
+NLeaves(shapes) == Cardinality({i \in DOMAIN shapes : shapes[i][1] \in {"leaf", "gap", "ger"}})   \* fresh atoms consumed (leafR consumes none)
 
 ShapeSeqs == UNION {[1..n -> Shapes] : n \in 0..MaxEvents}
 
@@ -268,6 +271,10 @@ DoProcess ==
     /\ \A i \in DOMAIN ss : ss[i][1] \in {"v2good", "v2bad"} =>
           (aroots # {} \/ \E j \in 1..(i - 1) : ss[j][1] = "leaf")
     /\ \A i \in DOMAIN ss : ss[i][1] = "gerrm" => ss[i][2] < nextLeaf      \* only a GER that was injected can be removed
+    \* a dropped leaf can only be mined again at the index it had
+    /\ \A i \in DOMAIN ss : ss[i][1] = "leafR" =>
+          (DepositCount + Cardinality({j \in 1..(i - 1) : ss[j][1] \in {"leaf", "leafR", "gap"}})) \in DOMAIN reuse
+    /\ ~(\E i, j \in DOMAIN ss : ss[i][1] = "gap" /\ ss[j][1] = "leafR")
     /\ LET b   == LastBlock + 1
            evs == Concrete(ss, nextLeaf, DepositCount)
            n   == NStmts(b, evs)
@@ -278,12 +285,17 @@ DoProcess ==
                Process(b, evs, f)
           \* a block that was not stored is retried with the same content: leaf atoms are consumed only on success
           /\ nextLeaf' = IF lastRes' = "ok" THEN nextLeaf + NLeaves(ss) ELSE nextLeaf
+          /\ reuse' = reuse
 
+DroppedLeaves(b) ==   \* leaf index -> atom, for the leaves of the blocks >= b
+  LET keepN == Len(LeavesOf(SelectSeq(blk, LAMBDA x : x.num < b)))
+      all == LeavesOf(blk)
+  IN [i \in keepN..(Len(all) - 1) |-> all[i + 1][2]]
 DoReorg   == AllowReorg /\ \E b \in 1..(MaxBlocks + 1) :
-                \/ (Reorg(b) /\ UNCHANGED nextLeaf)
+                \/ (Reorg(b) /\ UNCHANGED nextLeaf /\ reuse' = IF Kind = "ger" THEN reuse ELSE DroppedLeaves(b) @@ reuse)
                 \/ ("reorg" \in Faults /\ \E k \in 1..(IF Kind = "l1info" THEN 3 ELSE IF Kind = "bridge" THEN 2 ELSE 1) :
-                      (ReorgFail(b, k) /\ UNCHANGED nextLeaf))
-DoRestart == AllowRestart /\ Restart /\ UNCHANGED nextLeaf
+                      (ReorgFail(b, k) /\ UNCHANGED <<nextLeaf, reuse>>))
+DoRestart == AllowRestart /\ Restart /\ UNCHANGED <<nextLeaf, reuse>>
 
 Next == DoProcess \/ DoReorg \/ DoRestart
 Spec == Init /\ [][Next]_vars
